@@ -241,6 +241,36 @@ pub assume_specification [<i32 as std::convert::From<u16>>::from] (x: u16) -> (r
 pub assume_specification [u8::from_be] (x: u8) -> (r: u8) ensures r == x;
 pub assume_specification [u8::to_be] (x: u8) -> (r: u8) ensures r == x;
 
+// ======================================================================== textual label grammar (C17; written from the property statement)
+/// letter or digit (ASCII)
+pub open spec fn alnum(c: u8) -> bool { (48 <= c <= 57) || (65 <= c <= 90) || (97 <= c <= 122) }
+/// "1-63 characters, starts with a letter, digit or underscore, continues with letters, digits, hyphens or underscores,
+/// ends with a letter or digit"
+pub open spec fn label_text_ok(d: Seq<u8>) -> bool {
+    1 <= d.len() <= 63
+    && (alnum(d[0]) || d[0] == 95)
+    && (forall|i: int| 1 <= i < d.len() ==> alnum(#[trigger] d[i]) || d[i] == 45 || d[i] == 95)
+    && alnum(d[d.len() - 1])
+}
+/// "strictly longer and ends with the other's labels"
+pub open spec fn strict_suffix(a: Seq<Seq<u8>>, b: Seq<Seq<u8>>) -> bool {
+    a.len() > b.len() && forall|k: int| 0 <= k < b.len() ==> #[trigger] b[b.len() - 1 - k] == a[a.len() - 1 - k]
+}
+// <[T]>::to_vec: same length, every element a clone of the corresponding one (std contract of to_vec for T: Clone)
+pub assume_specification<T: Clone> [<[T]>::to_vec] (s: &[T]) -> (r: Vec<T>)
+    ensures r@.len() == s@.len(), forall|i: int| 0 <= i < s@.len() ==> cloned::<T>(#[trigger] s@[i], r@[i]);
+/// ASCII lower-casing of one byte
+pub open spec fn lower(c: u8) -> u8 { if 65 <= c <= 90 { (c + 32) as u8 } else { c } }
+/// "'local' in any letter case"
+pub open spec fn is_local_label(l: Seq<u8>) -> bool {
+    l.len() == 5 && lower(l[0]) == 108 && lower(l[1]) == 111 && lower(l[2]) == 99 && lower(l[3]) == 97 && lower(l[4]) == 108
+}
+// std contract of <[u8]>::eq_ignore_ascii_case: same length and byte-wise equal after ASCII lower-casing
+pub assume_specification [<[u8]>::eq_ignore_ascii_case] (a: &[u8], b: &[u8]) -> (r: bool)
+    ensures r == (a@.len() == b@.len() && forall|i: int| 0 <= i < a@.len() ==> lower(#[trigger] a@[i]) == lower(b@[i]));
+// std fact, proved for all 256 values by the Kani harness `r17_is_ascii_alphanumeric_table`
+pub assume_specification [u8::is_ascii_alphanumeric] (c: &u8) -> (r: bool) ensures r == alnum(*c);
+
 // ======================================================================== std::io model
 pub uninterp spec fn io_log<T: ?Sized>(t: &T) -> Seq<u8>;   // every byte ever accepted by write_all, in order
 pub uninterp spec fn io_buf<T: ?Sized>(t: &T) -> Seq<u8>;   // underlying storage (Cursor<Vec<u8>> semantics)
